@@ -31,6 +31,14 @@ def main():
         for f in ("patch.diff", "demo.py", "notes.md"):
             if os.path.exists(os.path.join(src, f)):
                 shutil.copy2(os.path.join(src, f), os.path.join(wt, "_out", "x", f))
+        # demos may pin the worktree they were written in; point them at this one
+        import re
+        dp = os.path.join(wt, "_out", "x", "demo.py")
+        src_txt = open(dp).read()
+        new_txt = re.sub(r"/tmp/w[0-9t]_C[0-9][0-9]", wt, src_txt)
+        if new_txt != src_txt:
+            open(dp, "w").write(new_txt)
+            meta["demo_path_rewritten"] = "the author's worktree path inside demo.py was replaced by the scratch worktree for this confirmation"
         rc0, out0 = sh([PY, "_out/x/demo.py"], cwd=wt)
         meta["demo_on_clean_tree_exit"] = rc0
         rc, out = sh(["git", "apply", "_out/x/patch.diff"], cwd=wt)
